@@ -40,6 +40,7 @@ pub fn generate(prop: &str, thorough: bool, verif_seed: u64, idx: u64) -> Value 
         "C16" => serde_json::to_value(scen_list::generate_c16(rs, thorough)).unwrap(),
         "C15" => serde_json::to_value(scen_list::generate_c15(rs, thorough, idx % 8 == 7)).unwrap(),
         "C11" => serde_json::to_value(crate::scen_life::generate(rs, thorough)).unwrap(),
+        "C12" => serde_json::to_value(crate::scen_conc::generate(rs, thorough, idx % 4 == 3)).unwrap(),
         _ => panic!("unknown property {prop}"),
     }
 }
@@ -77,6 +78,20 @@ pub fn execute(warmed: &Warmed, desc: &Value, keep_trace: bool) -> RunResult {
                 }
             };
             let mut r = crate::scen_life::execute(&d, keep_trace);
+            r.nontrivial = r.preemptions > 0;
+            r.distinct_key = r.trace_hash;
+            r
+        }
+        ("C12", _) => {
+            let d: crate::scen_conc::ConcDesc = match serde_json::from_value(desc.clone()) {
+                Ok(d) => d,
+                Err(e) => {
+                    let mut r = RunResult::default();
+                    r.violations.push(("harness-error".into(), format!("bad run description: {e}")));
+                    return r;
+                }
+            };
+            let mut r = crate::scen_conc::execute(&d, keep_trace);
             r.nontrivial = r.preemptions > 0;
             r.distinct_key = r.trace_hash;
             r
